@@ -83,7 +83,6 @@ class EdgeAnnotator(GraphAnnotator):
             return
 
         seg = self.tracks.segmentation
-        # TODO: add skip edges
         if self.iou_key in keys_to_compute:
             nodes_by_frame = defaultdict(list)
             for n in self.tracks.nodes():
@@ -91,8 +90,13 @@ class EdgeAnnotator(GraphAnnotator):
 
             for t in range(seg.shape[0] - 1):
                 nodes_in_t = nodes_by_frame[t]
-                edges = list(self.tracks.graph.out_edges(nodes_in_t))
-                self._iou_update(edges, seg[t], seg[t + 1])
+                # group the out edges by the frame of their target, so that an edge
+                # that skips frames is compared with the frame its target is in
+                edges_by_end_time = defaultdict(list)
+                for edge in self.tracks.graph.out_edges(nodes_in_t):
+                    edges_by_end_time[self.tracks.get_time(edge[1])].append(edge)
+                for end_time, edges in edges_by_end_time.items():
+                    self._iou_update(edges, seg[t], seg[end_time])
 
     def _iou_update(
         self,
